@@ -34,6 +34,64 @@ type wUse struct {
 	in   ssa.Instruction
 	kind string // header | status | body
 	code ssa.Value
+	// failEdge: the use happens inside a helper that reports it through a false result ("the error response has been written"):
+	// what can follow the use is what is reachable from the edge on which that result is false (nil: ordinary use at `in`)
+	failEdge *ssa.BasicBlock
+}
+
+// reaches: target can execute after the use.
+func (u wUse) reaches(target ssa.Instruction) bool {
+	if u.failEdge == nil {
+		return an.CanReach(u.in, target)
+	}
+	return target.Parent() == u.in.Parent() && an.Reach(u.failEdge, nil)[target.Block()]
+}
+
+// guardedWriterHelper: a same-package helper that receives the ResponseWriter, returns one bool, and writes to it only on paths
+// that end in `return false` (its true result means "nothing written, go on").  Returns the writer parameter index and the
+// uses inside the helper, or -1.
+func (c *Ctx) guardedWriterHelper(h *ssa.Function) (int, []wUse) {
+	if h == nil || h.Pkg == nil || h.Pkg.Pkg.Path() != pkgTransport || len(h.Blocks) == 0 {
+		return -1, nil
+	}
+	res := h.Signature.Results()
+	if res.Len() != 1 {
+		return -1, nil
+	}
+	if bt, ok := res.At(0).Type().Underlying().(*types.Basic); !ok || bt.Kind() != types.Bool {
+		return -1, nil
+	}
+	wi := -1
+	for i, p := range h.Params {
+		if strings.HasSuffix(p.Type().String(), "net/http.ResponseWriter") {
+			wi = i
+		}
+	}
+	if wi < 0 {
+		return -1, nil
+	}
+	uses := c.rwUsesOf(h, h.Params[wi], 1)
+	for _, u := range uses {
+		if u.kind == "header" {
+			continue
+		}
+		if u.in.Parent() != h {
+			return -1, nil
+		}
+		for _, r := range an.Returns(h) {
+			if h.Recover != nil && r.Block() == h.Recover {
+				continue
+			}
+			if !u.reaches(r) {
+				continue
+			}
+			k, isC := an.ReturnedValue(r, 0).(*ssa.Const)
+			if !isC || k.Value == nil || k.Value.String() != "false" {
+				return -1, nil
+			}
+		}
+	}
+	return wi, uses
 }
 
 // isRW: v is (derived from) the http.ResponseWriter parameter w of fn's top-level function.
@@ -88,7 +146,6 @@ func statusHelper(fn *ssa.Function) int {
 }
 
 func (c *Ctx) rwUses(do *ssa.Function) []wUse {
-	var out []wUse
 	w := ssa.Value(do.Params[len(do.Params)-3]) // (recv, w, r, exec)
 	if !strings.Contains(w.Type().String(), "ResponseWriter") {
 		for _, p := range do.Params {
@@ -97,6 +154,11 @@ func (c *Ctx) rwUses(do *ssa.Function) []wUse {
 			}
 		}
 	}
+	return c.rwUsesOf(do, w, 0)
+}
+
+func (c *Ctx) rwUsesOf(do *ssa.Function, w ssa.Value, depth int) []wUse {
+	var out []wUse
 	for _, fn := range an.WithClosures(do) {
 		for _, b := range fn.Blocks {
 			for _, in := range b.Instrs {
@@ -116,13 +178,13 @@ func (c *Ctx) rwUses(do *ssa.Function) []wUse {
 				if cc.IsInvoke() && isRW(cc.Value, w) {
 					switch cc.Method.Name() {
 					case "Header":
-						out = append(out, wUse{in, "header", nil})
+						out = append(out, wUse{in: in, kind: "header"})
 					case "WriteHeader":
-						out = append(out, wUse{in, "status", cc.Args[0]})
+						out = append(out, wUse{in: in, kind: "status", code: cc.Args[0]})
 					case "Flush":
-						out = append(out, wUse{in, "body", nil})
+						out = append(out, wUse{in: in, kind: "body"})
 					default:
-						out = append(out, wUse{in, "body", nil})
+						out = append(out, wUse{in: in, kind: "body"})
 					}
 					continue
 				}
@@ -137,14 +199,37 @@ func (c *Ctx) rwUses(do *ssa.Function) []wUse {
 				}
 				switch {
 				case n == pkgTransport+".writeHeaders":
-					out = append(out, wUse{in, "header", nil})
+					out = append(out, wUse{in: in, kind: "header"})
 				case n == "net/http.MaxBytesReader":
 					// wraps the request body; writes nothing (reviewed)
 				case ci.Static != nil && statusHelper(ci.Static) >= 0:
-					out = append(out, wUse{in, "status", cc.Args[statusHelper(ci.Static)]})
-					out = append(out, wUse{in, "body", nil})
+					out = append(out, wUse{in: in, kind: "status", code: cc.Args[statusHelper(ci.Static)]})
+					out = append(out, wUse{in: in, kind: "body"})
 				default:
-					out = append(out, wUse{in, "body", nil})
+					if depth == 0 {
+						if wi, inner := c.guardedWriterHelper(ci.Static); wi >= 0 && wi < len(cc.Args) && isRW(cc.Args[wi], w) {
+							// the helper's writes happen on the edge on which its result is false
+							var fe *ssa.BasicBlock
+							if v, isV := in.(ssa.Value); isV {
+								for _, e := range an.CondEdges(fn) {
+									if e.Fact.Op == token.ILLEGAL && e.Fact.X == v && e.Fact.Neg {
+										fe = e.To
+									}
+								}
+							}
+							if fe != nil {
+								for _, iu := range inner {
+									if iu.kind == "header" {
+										out = append(out, wUse{in: in, kind: "header"})
+										continue
+									}
+									out = append(out, wUse{in: in, kind: iu.kind, code: iu.code, failEdge: fe})
+								}
+								continue
+							}
+						}
+					}
+					out = append(out, wUse{in: in, kind: "body"})
 				}
 			}
 		}
@@ -276,13 +361,13 @@ func runC09(c *Ctx) {
 			nstatus++
 			if !is2xxConst(u.code) {
 				for _, d := range disp {
-					if an.CanReach(u.in, d) || an.CanReach(d, u.in) {
+					if u.reaches(d) || an.CanReach(d, u.in) {
 						bad = sprintf("non-2xx WriteHeader at %s shares a path with DispatchOperation at %s: a request answered with an error status may have executed", c.ipos(u.in), c.ipos(d))
 					}
 				}
 			}
 			for _, b := range uses {
-				if b.kind == "body" && b.in != u.in && an.CanReach(b.in, u.in) {
+				if b.kind == "body" && b.in != u.in && b.reaches(u.in) {
 					bad = sprintf("WriteHeader at %s is reachable after the body write at %s (the status would be ignored)", c.ipos(u.in), c.ipos(b.in))
 				}
 			}
@@ -609,11 +694,11 @@ func (c *Ctx) executorCodes() {
 	}
 	want := map[string]constant.Value{"parse": pf, "has-operations": vf, "validate": vf, "operation-selected": vf, "VariableValues": vf}
 	var keys []string
-	for _, name := range []string{"*Executor.CreateOperationContext", "*Executor.parseQuery"} {
-		fn := c.fn(pkgExecutor, name)
-		if fn == nil {
-			continue
-		}
+	cr, pq := c.fn(pkgExecutor, "*Executor.CreateOperationContext"), c.fn(pkgExecutor, "*Executor.parseQuery")
+	if cr == nil || pq == nil {
+		return
+	}
+	for _, fn := range c.gateFuncs(cr, pq) {
 		for _, g := range c.gatesOf(fn) {
 			code, ok := want[g.name]
 			if !ok {
@@ -622,6 +707,44 @@ func (c *Ctx) executorCodes() {
 			key := "executor/gate:" + g.name + "/code"
 			keys = append(keys, key)
 			okAll, n := true, 0
+			// the gate's own result is returned to the caller (validation helper): every element must get the code in a loop
+			// over that result which lies on the way to the return
+			for _, r := range an.Returns(fn) {
+				nres := len(r.Results)
+				if nres == 0 || !g.result(an.ReturnedValue(r, nres-1)) {
+					continue
+				}
+				n++
+				found := false
+				for _, b2 := range fn.Blocks {
+					for _, in2 := range b2.Instrs {
+						call, ok := in2.(*ssa.Call)
+						if !ok || an.CalleeOf(call).FullName() != pkgErrcode+".Set" {
+							continue
+						}
+						cv, isC := call.Call.Args[1].(*ssa.Const)
+						if !isC || cv.Value == nil || !constant.Compare(cv.Value, token.EQL, code) || !an.CanReach(call, r) {
+							continue
+						}
+						// the error handed to Set is an element of a range over the gate's result
+						for _, d := range an.Defs(call.Call.Args[0]) {
+							if e, isE := d.(*ssa.Extract); isE {
+								if nx, isN := e.Tuple.(*ssa.Next); isN {
+									if rg, isR := nx.Iter.(*ssa.Range); isR && g.result(rg.X) {
+										found = true
+									}
+								}
+							}
+							if ld, isL := d.(*ssa.UnOp); isL {
+								if ia, isI := ld.X.(*ssa.IndexAddr); isI && g.result(ia.X) {
+									found = true
+								}
+							}
+						}
+					}
+				}
+				okAll = okAll && found
+			}
 			for _, e := range an.CondEdges(fn) {
 				if empty, k := an.EmptinessFact(e.Fact, g.result); !k || empty != g.failWhen {
 					continue
